@@ -240,11 +240,10 @@ func (df *DataFrame) getRowKey(rowIndex int, colNames []string) (string, error) 
 		builder.WriteString(name)
 		builder.WriteString(":")
 
-		if value == nil {
-			builder.WriteString("nil")
-		} else {
-			builder.WriteString(fmt.Sprintf("%v", value))
-		}
+		// the type and the length of the text make the key unambiguous: values containing
+		// ':' or '|', nil versus the text "nil", or 1 versus "1" can never collide
+		text := fmt.Sprintf("%v", value)
+		builder.WriteString(fmt.Sprintf("%T:%d:%s", value, len(text), text))
 
 		builder.WriteString("|")
 	}
